@@ -24,7 +24,7 @@ def main():
     env = dict(os.environ, CARGO_TARGET_DIR=TARGET + "-" + seed_id, CARGO_NET_OFFLINE="true")
     rep = {"seed": seed_id, "property": prop}
     try:
-        for x in ("src", "Cargo.toml", "Cargo.lock"):
+        for x in ("src", "Cargo.toml", "Cargo.lock", "README.md", "CHANGELOG.md"):
             s = os.path.join("/repo", x)
             if os.path.isdir(s):
                 shutil.copytree(s, os.path.join(d, x))
